@@ -79,6 +79,12 @@ pub fn classify(krate: &rsproj::RCrate, table: &Table, ty: &str, depth: usize) -
     if table.defs().iter().any(|d| d.k != "VALUE" && table.def_name(d.idx) == name) {
         return format!("REF:{name}");
     }
+    // a definition whose Rust name differs from its ASN.1 name carries the latter as identifier annotation
+    if let Some(asn) = krate.item(&name).and_then(|it| it.attrs.nv("identifier")) {
+        if table.defs().iter().any(|d| d.k != "VALUE" && table.def_name(d.idx) == asn) {
+            return format!("REF:{asn}");
+        }
+    }
     match krate.item(&name) {
         Some(it) if it.kind == "enum" && it.attrs.has("enumerated") => "ENUMERATED".into(),
         Some(it) if it.kind == "enum" && it.attrs.has("choice") => "CHOICE".into(),
